@@ -133,7 +133,7 @@ func (dist *ExponentialDistribution) SetParameters(parameters Vector) error {
 
 func (dist *ExponentialDistribution) ImportConfig(config ConfigDistribution, t ScalarType) error {
 
-  if parameters, ok := config.GetParametersAsFloats(); !ok {
+  if parameters, ok := config.GetParametersAsFloats(); !ok || len(parameters) < 1 {
     return fmt.Errorf("invalid config file")
   } else {
     lambda := NewScalar(t, parameters[0])
